@@ -42,7 +42,7 @@ Section Upload3.
       fs_get (dest, n) (fs x') = fs_get (h_dir h, n) (fs x) /\ fs_get (h_dir h, n) (fs x) <> None /\
       fs_get (h_dir h, n) (fs x') = fs_get (h_dir h, n) (fs x).
   Proof.
-    intros Hd ND Hnot. unfold do_copy, transfer. destruct (negb (forallb plain (h_listed h))); [discriminate|].
+    intros Hd ND Hnot. unfold do_copy, transfer. destruct (negb (listed_ok h)); [discriminate|].
     destruct (each copy_file (h_dir h) dest (h_listed h) x) as [x1 ok1] eqn:EA. destruct ok1; [|discriminate].
     intros C n Hn. destruct (copy_success _ _ _ _ C) as [G NE].
     assert (Src : forall k, fs_get (h_dir h, k) (fs x') = fs_get (h_dir h, k) (fs x)).
